@@ -86,7 +86,11 @@ func (t *inMemoryStorage) Get(ctx context.Context, id string) (StorageRecord, er
 func (t *inMemoryStorage) GetAfterOrder(ctx context.Context, order int, iter StorageIterator) error {
 	t.RLock()
 	defer t.RUnlock()
-	if order > len(t.records) || order < 1 {
+	if order < 1 {
+		// a lower bound, as in the persistent storage: everything from the first record on
+		order = 1
+	}
+	if order > len(t.records) {
 		return nil
 	}
 	for i := order - 1; i < len(t.records); i++ {
